@@ -8,7 +8,7 @@ import traceback
 from fractions import Fraction
 
 VERIF = os.path.dirname(os.path.dirname(os.path.abspath(__file__)))
-OUT = os.path.join(VERIF, "out")
+OUT = os.environ.get("VERIF_OUT_DIR") or os.path.join(VERIF, "out")
 REPLAYS = os.path.join(OUT, "replays")
 EVID = os.environ.get("VERIF_EVIDENCE_DIR") or os.path.join(VERIF, "evidence")
 KNOWN = os.path.join(VERIF, "known_findings.json")
